@@ -1107,14 +1107,40 @@ func (a *analysis) branch(f func()) {
 	a.join(pre)
 }
 
+// twice: a loop.  The body is iterated WITHOUT recording until the environment at the loop head is
+// stable (join over the back edge: what a later statement of the body assigns is visible to an earlier
+// one in the next iteration); then one recorded pass with that loop-invariant environment — so a sink
+// that stands BEFORE the assignment of a secret in the body is recorded with the secret.
 func (a *analysis) twice(f func()) {
 	a.branch(func() {
-		f()
 		rec := recording
 		recording = false
-		f()
+		for i := 0; i < 16; i++ {
+			head := a.snapshot()
+			f()
+			a.join(head)
+			if a.sameEnv(head) {
+				break
+			}
+		}
 		recording = rec
+		f()
 	})
+}
+
+func (a *analysis) sameEnv(o map[types.Object]labels) bool {
+	for k, v := range a.env {
+		w := o[k]
+		if len(v) != len(w) {
+			return false
+		}
+		for x := range v {
+			if _, ok := w[x]; !ok {
+				return false
+			}
+		}
+	}
+	return true
 }
 
 func (a *analysis) stmt(s ast.Stmt) {
